@@ -820,6 +820,11 @@ def hierarchical_section(ck):
         csz = max(comp.count(r) for r in set(comp))
         L = lcm_upto(csz)
         p = feat0.shape[1]
+        # since /repo 0ed383f ward centres the features first: make every column sum a multiple of n (add 1 to the
+        # first few items), so that the mean and the centred values are exact integers too
+        feat0 = feat0.copy()
+        for j in range(p):
+            feat0[:(-int(feat0[:, j].sum())) % n, j] += 1
         vmax = int(feat0.max()) if feat0.size else 0
         exact = p * (csz * L * max(vmax, 1)) ** 2 < 2 ** 52
         feat = feat0 * (L if exact else 1)
@@ -873,6 +878,11 @@ def hierarchical_section(ck):
         if exact and n <= ck.n(24, 40):
             add("ward_check %s %s %s %s %s %s" % (cnat(p), cnat(n), Gund, cmat(featl), cnatl(parents),
                                                 "[%s]" % "; ".join(cq(F(h)) for h in height)), ("ward-certificate", rep))
+        if exact and n <= 12:
+            cen = [[featl[i][j] - sum(r[j] for r in featl) // n for j in range(p)] for i in range(n)]
+            add("ward_agrees %s %s %s %s %s %s %s" % (cnat(p), cnat(n), clist(["(%s,%s)" % (cnat(a), cnat(b)) for a, b in Ed]),
+                                                    cmat(cen), orc, cnatl(parents), "[%s]" % "; ".join(cq(F(h)) for h in height)),
+                ("ward-on-centred-features", rep))
         if leaves is None:
             continue
         if not t.check_compatible_height():
